@@ -141,6 +141,51 @@ func VX_C19_join_slice() {
 	vx.Assert(ok, "each item exactly once, each input's order preserved, output closed after all inputs are drained")
 }
 
+// edge configurations: no input channel at all (nil or empty slice) and a single one
+func VX_C19_join_slice0() {
+	var in []<-chan int
+	if vx.Nondet[bool]("empty") {
+		in = []<-chan int{}
+	}
+	out := deriveJoinSl(in)
+	n := 0
+	for range out {
+		n++
+	}
+	vx.Assert(n == 0, "no inputs: the output is closed without delivering anything")
+}
+
+func VX_C19_join_slice1() {
+	n := vx.Nondet[uint8]("n")
+	vx.Assume(n <= 2)
+	c1 := make(chan int)
+	go produce(c1, n, 10, 11)
+	out := deriveJoinSl([]<-chan int{c1})
+	var got []int
+	for v := range out {
+		got = append(got, v)
+	}
+	ok := len(got) == int(n)
+	if n >= 1 && got[0] != 10 {
+		ok = false
+	}
+	if n >= 2 && got[1] != 11 {
+		ok = false
+	}
+	vx.Assert(ok, "one input: its items in order, then the output is closed")
+}
+
+func VX_C19_join_chanofchan0() {
+	in := make(chan (<-chan int))
+	go func() { close(in) }()
+	out := deriveJoinCC(in)
+	n := 0
+	for range out {
+		n++
+	}
+	vx.Assert(n == 0, "no inner channels: the output is closed without delivering anything")
+}
+
 func VX_C19_join_select() {
 	n := vx.Nondet[uint8]("n")
 	m := vx.Nondet[uint8]("m")
